@@ -1711,15 +1711,17 @@ where
     }
 
     fn apply_push_str_impl(&mut self, tag: Tag, string: Cow<'static, str>) -> ApplyResult {
-        if let Some(e) = self.entries.remove(&tag) {
-            let (header, value) = e.into_parts();
-            match value {
-                Value::Primitive(mut v) => {
-                    self.invalidate_if_charset_changed(tag);
-                    // extend value
+        if let Some(e) = self.entries.get(&tag) {
+            let vr = e.vr();
+            match e.value() {
+                Value::Primitive(v) => {
+                    // extend a copy of the value,
+                    // so that the element is left untouched if this fails
+                    let mut v = v.clone();
                     v.extend_str([string]).context(ModifySnafu)?;
-                    // reinsert element
-                    self.put(DataElement::new(tag, header.vr, v));
+                    self.invalidate_if_charset_changed(tag);
+                    // replace element
+                    self.put(DataElement::new(tag, vr, v));
                     Ok(())
                 }
 
@@ -1745,14 +1747,16 @@ where
     }
 
     fn apply_push_i32_impl(&mut self, tag: Tag, integer: i32) -> ApplyResult {
-        if let Some(e) = self.entries.remove(&tag) {
-            let (header, value) = e.into_parts();
-            match value {
-                Value::Primitive(mut v) => {
-                    // extend value
+        if let Some(e) = self.entries.get(&tag) {
+            let vr = e.vr();
+            match e.value() {
+                Value::Primitive(v) => {
+                    // extend a copy of the value,
+                    // so that the element is left untouched if this fails
+                    let mut v = v.clone();
                     v.extend_i32([integer]).context(ModifySnafu)?;
-                    // reinsert element
-                    self.put(DataElement::new(tag, header.vr, v));
+                    // replace element
+                    self.put(DataElement::new(tag, vr, v));
                     Ok(())
                 }
 
@@ -1778,14 +1782,16 @@ where
     }
 
     fn apply_push_u32_impl(&mut self, tag: Tag, integer: u32) -> ApplyResult {
-        if let Some(e) = self.entries.remove(&tag) {
-            let (header, value) = e.into_parts();
-            match value {
-                Value::Primitive(mut v) => {
-                    // extend value
+        if let Some(e) = self.entries.get(&tag) {
+            let vr = e.vr();
+            match e.value() {
+                Value::Primitive(v) => {
+                    // extend a copy of the value,
+                    // so that the element is left untouched if this fails
+                    let mut v = v.clone();
                     v.extend_u32([integer]).context(ModifySnafu)?;
-                    // reinsert element
-                    self.put(DataElement::new(tag, header.vr, v));
+                    // replace element
+                    self.put(DataElement::new(tag, vr, v));
                     Ok(())
                 }
 
@@ -1811,14 +1817,16 @@ where
     }
 
     fn apply_push_i16_impl(&mut self, tag: Tag, integer: i16) -> ApplyResult {
-        if let Some(e) = self.entries.remove(&tag) {
-            let (header, value) = e.into_parts();
-            match value {
-                Value::Primitive(mut v) => {
-                    // extend value
+        if let Some(e) = self.entries.get(&tag) {
+            let vr = e.vr();
+            match e.value() {
+                Value::Primitive(v) => {
+                    // extend a copy of the value,
+                    // so that the element is left untouched if this fails
+                    let mut v = v.clone();
                     v.extend_i16([integer]).context(ModifySnafu)?;
-                    // reinsert element
-                    self.put(DataElement::new(tag, header.vr, v));
+                    // replace element
+                    self.put(DataElement::new(tag, vr, v));
                     Ok(())
                 }
 
@@ -1844,14 +1852,16 @@ where
     }
 
     fn apply_push_u16_impl(&mut self, tag: Tag, integer: u16) -> ApplyResult {
-        if let Some(e) = self.entries.remove(&tag) {
-            let (header, value) = e.into_parts();
-            match value {
-                Value::Primitive(mut v) => {
-                    // extend value
+        if let Some(e) = self.entries.get(&tag) {
+            let vr = e.vr();
+            match e.value() {
+                Value::Primitive(v) => {
+                    // extend a copy of the value,
+                    // so that the element is left untouched if this fails
+                    let mut v = v.clone();
                     v.extend_u16([integer]).context(ModifySnafu)?;
-                    // reinsert element
-                    self.put(DataElement::new(tag, header.vr, v));
+                    // replace element
+                    self.put(DataElement::new(tag, vr, v));
                     Ok(())
                 }
 
@@ -1877,14 +1887,16 @@ where
     }
 
     fn apply_push_f32_impl(&mut self, tag: Tag, number: f32) -> ApplyResult {
-        if let Some(e) = self.entries.remove(&tag) {
-            let (header, value) = e.into_parts();
-            match value {
-                Value::Primitive(mut v) => {
-                    // extend value
+        if let Some(e) = self.entries.get(&tag) {
+            let vr = e.vr();
+            match e.value() {
+                Value::Primitive(v) => {
+                    // extend a copy of the value,
+                    // so that the element is left untouched if this fails
+                    let mut v = v.clone();
                     v.extend_f32([number]).context(ModifySnafu)?;
-                    // reinsert element
-                    self.put(DataElement::new(tag, header.vr, v));
+                    // replace element
+                    self.put(DataElement::new(tag, vr, v));
                     Ok(())
                 }
 
@@ -1910,14 +1922,16 @@ where
     }
 
     fn apply_push_f64_impl(&mut self, tag: Tag, number: f64) -> ApplyResult {
-        if let Some(e) = self.entries.remove(&tag) {
-            let (header, value) = e.into_parts();
-            match value {
-                Value::Primitive(mut v) => {
-                    // extend value
+        if let Some(e) = self.entries.get(&tag) {
+            let vr = e.vr();
+            match e.value() {
+                Value::Primitive(v) => {
+                    // extend a copy of the value,
+                    // so that the element is left untouched if this fails
+                    let mut v = v.clone();
                     v.extend_f64([number]).context(ModifySnafu)?;
-                    // reinsert element
-                    self.put(DataElement::new(tag, header.vr, v));
+                    // replace element
+                    self.put(DataElement::new(tag, vr, v));
                     Ok(())
                 }
 
